@@ -47,6 +47,14 @@ Definition direct_L n (w : T) (L : fmx) : fmx :=
   fun i j => add (weight_mat n w i j) (L i j).
 Definition direct_b (w : T) : fvec := one_element 0 w.
 
+(* primitives the generated bookkeeping terms (Gen/C18_bookkeeping.v, written
+   by tools/tx_c18_bookkeeping.py from the source text) are made of *)
+(* _data.diag([w] * n, k)[i, j] *)
+Definition fdiag (w : T) (k : nat) : fmx := fun i j => if j == k + i then w else zero.
+(* matmul of an (N,1) matrix by a (1,N) matrix *)
+Definition fouter (c r : fvec) : fmx := fun i j => mul (c i) (r j).
+Definition fadd (A B : fmx) : fmx := fun i j => add (A i j) (B i j).
+
 (* ---- permutations ------------------------------------------------------
    _data.permute.indices(M, rows, cols): out[rows[r], cols[c]] = M[r, c],
    i.e. out[i, j] = M[index i rows, index j cols].
@@ -114,6 +122,15 @@ Definition pinv_P n (rho : fmx) : fmx :=
 Definition pinv_Q n rho : fmx := fun i j => add (fid i j) (opp (pinv_P n rho i j)).
 Definition pinv_R n rho (LIQ : fmx) : fmx := fmulmx (n * n) (pinv_Q n rho) LIQ.
 
+(* pseudo_inverse(use_rcm=True): perm = reverse_cuthill_mckee(L) is used as it
+   is (no argsort):  A = permute.indices(L + s, perm, perm),
+   Q = permute.indices(Q, perm, perm), LIQ = solve(A, Q), R = Q @ LIQ,
+   R = permute.indices(R, argsort(perm), argsort(perm)) *)
+Definition pinv_rcm_system (perm : seq nat) (A Q : fmx) :=
+  (perm_full perm perm A, perm_full perm perm Q).
+Definition pinv_rcm_R (N : nat) (perm : seq nat) (Q' LIQ' : fmx) : fmx :=
+  let rev_perm := argsort perm in perm_full rev_perm rev_perm (fmulmx N Q' LIQ').
+
 (* ---- HEOMSolver.steady_state: row 0 of the generator is REPLACED by the
    trace functional of the system block (first n*n entries), b = e_0 *)
 Definition heom_row n : fvec :=
@@ -167,6 +184,9 @@ Definition gz_power_post n v :=
   let (V, d) := power_post gz0 gzadd gzcj n (of_list v) in (tab_mx n n V, d).
 Definition gz_pinv_R n rho LIQ :=
   tab_mx (n * n) (n * n) (pinv_R gz0 gz1 gzadd gzmul gzopp n (of_rows rho) (of_rows LIQ)).
+Definition gz_pinv_rcm_R n perm rho LIQ' :=
+  let Q' := perm_full perm perm (pinv_Q gz0 gz1 gzadd gzmul gzopp n (of_rows rho)) in
+  tab_mx (n * n) (n * n) (pinv_rcm_R gz0 gzadd gzmul (n * n) perm Q' (of_rows LIQ')).
 Definition gz_heom_L n N L := tab_mx N N (heom_L gz0 gz1 n (of_rows L)).
 Definition gz_mulv N L x := tab_vec N (fmulv gz0 gzadd gzmul N (of_rows L) (of_list x)).
 Definition gz_is_zero_vec (x : seq GZ) : bool := all (fun a => gzeqb a gz0) x.
